@@ -186,7 +186,10 @@ def node_classes(sig, tag="c11"):
         if hasattr(cp, "__code__"):
             raise par.HarnessError("fallback probe unexpectedly has __code__")
         slow = type(f"C11Slow{n}", (BaseNode,), {"tag": tag, "render": cp, "__module__": "verif_c11"})
-        got = _CLS_CACHE[key] = (fn, fast, slow)
+        # a node class that INHERITS its render() from a plain (non-node) mixin - the idiom for sharing one render between tags
+        mixin = type(f"C11Mixin{n}", (), {"render": fn, "__module__": "verif_c11"})
+        inherited = type(f"C11Inh{n}", (mixin, BaseNode), {"tag": tag, "__module__": "verif_c11"})
+        got = _CLS_CACHE[key] = (fn, fast, slow, inherited)
     return got
 
 
@@ -394,10 +397,11 @@ def check_pair(sig, call, ctx, tag="c11", judge_dups=True, seam="node"):
         exp = expected(call, fn)
         kind, log = observe_template(tagname, call)
         return exp, [("template", kind, log, judge(exp, call, kind, log))], None
-    fn, fast, slow = node_classes(sig, tag)
+    fn, fast, slow, inherited = node_classes(sig, tag)
     exp = expected(call, fn)
     res = []
-    for path, cls in (("fast", fast), ("fallback", slow)):
+    # (the inherited-render class goes through the same fast path: it is run for the small signatures only)
+    for path, cls in (("fast", fast), ("fallback", slow)) + ((("inherited", inherited),) if len(sig) <= 2 else ()):
         kind, log = observe_node(cls, call, ctx)
         problem = judge(exp, call, kind, log) if (judge_dups or not call.has_dup) else None
         res.append((path, kind, log, problem))
